@@ -62,7 +62,7 @@ def make_rig(tag="s"):
     rc, out = sh("git -C /repo worktree add --detach %s HEAD" % wt)
     assert rc == 0, out
     rc, out = sh("rsync -a --exclude .git --exclude replays --exclude mutants %s/ %s/" % (ROOT, rig))
-    assert rc == 0, out
+    assert rc in (0, 24), out       # 24: a build product vanished while copying (a build is running in /verif); the rig rebuilds
     ct = os.path.join(rig, "harness", "Cargo.toml")
     c = open(ct).read()
     open(ct, "w").write(c.replace('path = "/repo/purl"', 'path = "%s/purl"' % wt))
@@ -120,7 +120,8 @@ def main():
     no_proof = "--no-proof" in a
     use_rig = "--rig" in a
     a = [x for x in a if x not in ("--no-proof", "--rig")]
-    rig = make_rig() if use_rig and a[0] in ("run", "all") else None
+    tag = "s%d" % os.getpid()       # private to this invocation: concurrent runs do not clobber each other's rig
+    rig = make_rig(tag) if use_rig and a[0] in ("run", "all") else None
     if a[0] == "intake":
         intake(a[1], a[2], a[3])
     elif a[0] == "run":
@@ -128,14 +129,14 @@ def main():
             run(a[1], a[2:], no_proof, rig)
         finally:
             if rig:
-                drop_rig()
+                drop_rig(tag)
     elif a[0] == "all":
         try:
             for name in sorted(os.listdir(os.path.join(ROOT, "seeded"))):
                 run(name, [], no_proof, rig)
         finally:
             if rig:
-                drop_rig()
+                drop_rig(tag)
 
 
 if __name__ == "__main__":
